@@ -610,7 +610,7 @@ CHAIN = {
                 what="call chains user->A->B->A, contracts calling themselves, instantiation with funds; funds none / one / two "
                      "denominations / exactly owned / more than owned; block changed by set_block / update_block before the call; "
                      "compared: sender, own address, block, funds told, balances visible to the callee, no invocation on overdraw"),
-    "C08": dict(cfgs=["private"], focus="reads.cs,post.cs,views",
+    "C08": dict(cfgs=["private", "percode"], focus="reads.cs,post.cs,views,reads.bank,reads.reg,post.bank,post.reg,ok,raw,names,seq",
                 need=["two_or_more_invocations", "ok"],
                 what="three contracts (two from the same code) writing/removing keys that are instantiated with adversarial bytes "
                      "(other modules' and contracts' raw prefixes), nested and top-level, two transactions; compared: every "
@@ -621,7 +621,7 @@ CHAIN = {
                 what="the battery of bank / wasm raw / contract-info queries issued by the scripted contract at every entry-point "
                      "invocation of the C02 trees (in particular after a caught failure), and the same queries through App after "
                      "the call, twice, with the raw storage compared before and after"),
-    "C11": dict(cfgs=["registry"], focus="codes,names,val,ok,post.reg,reads.reg,flavour,panic,seq",
+    "C11": dict(cfgs=["registry", "percode"], focus="codes,names,val,ok,post.reg,reads.reg,flavour,panic,seq",
                 need=["instantiate", "err", "ok"],
                 what="histories of store_code / store_code_with_id (ids 0, 1, 3, 5) / duplicate_code followed by classic and salted "
                      "instantiations (top-level and from a contract, failing and rolled back) with two creators, labels incl. empty; "
